@@ -15,6 +15,7 @@ use std::fs;
 #[cfg(not(rdest_verif))]
 use std::fs::File;
 use std::io::{BufReader, BufWriter, Read, Seek, Write};
+use std::path::{Component, Path};
 use tokio::sync::mpsc;
 
 pub struct Extractor {
@@ -39,7 +40,27 @@ impl Extractor {
             .expect("Can't communicate to manager")
     }
 
+    fn is_inside_working_dir(path: &Path) -> bool {
+        let mut depth = 0;
+        for component in path.components() {
+            match component {
+                Component::Normal(_) => depth += 1,
+                Component::CurDir => (),
+                _ => return false,
+            }
+        }
+
+        depth > 0
+    }
+
     fn extract_files(&self) -> Result<(), Box<dyn std::error::Error>> {
+        // Refuse to write outside of working directory (absolute path or ".." in name/path)
+        for (path, _, _) in self.metainfo.file_piece_ranges().iter() {
+            if !Self::is_inside_working_dir(path) {
+                return Err(format!("Unsafe file path: {}", path.display()).into());
+            }
+        }
+
         for (path, start, end) in self.metainfo.file_piece_ranges().iter() {
             // Create directories if needed
             if let Some(parent) = path.parent() {
